@@ -41,6 +41,8 @@ type siteInfo struct {
 	Kind string `json:"kind"`
 }
 
+var plainSrc = map[string]string{}
+
 var (
 	sites      []siteInfo
 	withAccess bool
@@ -49,6 +51,7 @@ var (
 
 func main() {
 	flag.BoolVar(&withAccess, "access", false, "insert shared-memory access hooks")
+	asRoot := flag.String("as", "", "overlay the instrumented sources onto this module root instead of <repo-root> (checks a scratch copy against the harness's replace target)")
 	flag.Parse()
 	if flag.NArg() != 3 {
 		fmt.Fprintln(os.Stderr, "usage: vinst [-access] <outdir> <vrt-src-dir> <repo-root>")
@@ -59,6 +62,17 @@ func main() {
 	repo, _ := filepath.Abs(flag.Arg(2))
 	if err := os.Chdir(repo); err != nil {
 		die(err)
+	}
+	target := repo
+	if *asRoot != "" {
+		target, _ = filepath.Abs(*asRoot)
+	}
+	mapPath := func(p string) string {
+		rel, err := filepath.Rel(repo, p)
+		if err != nil {
+			die(err)
+		}
+		return filepath.Join(target, rel)
 	}
 	os.MkdirAll(outDir, 0755)
 	overlay := map[string]string{}
@@ -91,7 +105,7 @@ func main() {
 				die(fmt.Errorf("type-check %s: %v", dir, err))
 			}
 			for i, f := range files {
-				if !instrumentFile(f, info, fset) {
+				if !instrumentFile(f, info, fset) && target == repo {
 					continue
 				}
 				var buf bytes.Buffer
@@ -104,7 +118,10 @@ func main() {
 					die(err)
 				}
 				abs, _ := filepath.Abs(fnames[i])
-				overlay[abs] = out
+				overlay[mapPath(abs)] = out
+				if target != repo {
+					plainSrc[mapPath(abs)] = abs
+				}
 			}
 		}
 	}
@@ -116,7 +133,7 @@ func main() {
 		}
 		for _, e := range ents {
 			if strings.HasSuffix(e.Name(), ".go") {
-				overlay[filepath.Join(repo, rel, e.Name())] = filepath.Join(src, e.Name())
+				overlay[filepath.Join(target, rel, e.Name())] = filepath.Join(src, e.Name())
 			}
 		}
 	}
@@ -126,6 +143,9 @@ func main() {
 	os.WriteFile(filepath.Join(outDir, "overlay.json"), b, 0644)
 	// plain overlay: runtime only, library sources untouched (for the -race pass)
 	plain := map[string]string{}
+	for k, v := range plainSrc {
+		plain[k] = v
+	}
 	for k, v := range overlay {
 		if strings.Contains(k, "internal/verifrt") {
 			plain[k] = v
